@@ -124,8 +124,12 @@ namespace OpenMEEG {
 
     void Mesh::add_mesh(const Mesh& m) {
         std::map<const Vertex*,Vertex*> vmap;
-        for (const auto& vertex : m.vertices())
-            vmap[vertex] = &geom->vertices().at(geom->add_vertex(*vertex));
+        for (const auto& vertex : m.vertices()) {
+            Vertex* v = &geom->vertices().at(geom->add_vertex(*vertex));
+            vmap[vertex] = v;
+            if (std::find(vertices().begin(),vertices().end(),v)==vertices().end())
+                vertices().push_back(v);
+        }
         auto vertex = [&](const Triangle& t,const unsigned ind) { return vmap.at(&t.vertex(ind)); };
         for (const auto& triangle : m.triangles())
             triangles().push_back(Triangle(vertex(triangle,0),vertex(triangle,1),vertex(triangle,2)));
